@@ -1142,7 +1142,15 @@ class Hdf5Loader:
             descr = self.load(subpath + 'descr')
             obj = np.dtype(descr)
         else:
-            obj = np.dtype(name)
+            try:
+                obj = np.dtype(name)
+            except TypeError:
+                # e.g. string dtypes have names like 'str160', which numpy does not parse
+                descr = self.load(subpath + 'descr')
+                if len(descr) == 1 and descr[0][0] == '':
+                    obj = np.dtype(descr[0][1])
+                else:
+                    obj = np.dtype(descr)
         self.memorize_load(h5gr, obj)
         return obj
 
